@@ -9,7 +9,9 @@ opts (all optional):
   resume_from: k -> simulate(max_time=k) first, the observed run resumes it (state/log initialisation off, or restart_flags=(state, log));
   build_from + edit: objects built from spec `build_from`, run `presim` times, then edited in place (mc/edits.py) into `spec`;
   post_insert: list -> insert_absence_time_list(list) after the run; post_remove: remove_absence_time_list() after the run; reload: write/read JSON after the run and look at the loaded project;
-  unit_time: passed to simulate(); backward: observe backward_simulate() instead (options due, rev).
+  unit_time: passed to simulate(); backward: observe backward_simulate() instead (options due, rev);
+  flags: (state, log) initialisation flags of the observed call on a never-simulated model; error_tol: passed to simulate();
+  resume_via_json: with resume_from, the stopped project is written to JSON, read into a new project and continued there.
 """
 import traceback
 
@@ -30,7 +32,7 @@ class InjectedInterrupt(BaseException):
 class Exec(object):
     __slots__ = (
         "spec", "opts", "m", "trace", "canon", "error", "error_tb", "placements", "steps", "absent_steps", "lib_working",
-        "defaults_after",
+        "defaults_after", "log_start",
     )
 
     def __init__(self, spec, opts):
@@ -44,6 +46,7 @@ class Exec(object):
         self.placements = {}  # (step, "update"|"alloc") -> placement events of that part of the step
         self.steps = 0
         self.absent_steps = set()
+        self.log_start = 0  # first log index written by the observed run's life cycle (> 0 when states were reset but logs kept)
         self.lib_working = {}  # step -> the library's own working/absence flag (the trace carries the flag derived from the list given to simulate())
 
     @property
@@ -76,6 +79,8 @@ def sim_kwargs(opts):
     )
     if opts.get("unit_time") is not None:
         kw["unit_time"] = opts["unit_time"]
+    if opts.get("error_tol") is not None:
+        kw["error_tol"] = opts["error_tol"]
     return kw
 
 
@@ -135,6 +140,21 @@ def run(spec, opts=None, model=None, call=None):
         if opts.get("resume_from") is not None:
             # the observed run continues a run that was stopped at step resume_from (state and logs kept)
             ex.m.project.simulate(**dict(sim_kwargs(opts), max_time=opts["resume_from"]))
+            if opts.get("resume_via_json"):
+                import os
+                import tempfile
+
+                fd, path = tempfile.mkstemp(prefix="verif-resume-", suffix=".json")
+                os.close(fd)
+                try:
+                    ex.m.project.write_simple_json(path)
+                    from pDESy.model.base_project import BaseProject
+
+                    p2 = BaseProject()
+                    p2.read_simple_json(path)
+                    ex.m = S.adopt(p2)  # the run is continued in the loaded project
+                finally:
+                    os.unlink(path)
         for _ in range(int(opts.get("presim") or 0)):
             # earlier, unobserved runs on the same object (the observed run must not be influenced by them)
             ex.m.project.simulate(**sim_kwargs(dict(opts, absence=opts.get("presim_absence", []))))
@@ -154,6 +174,10 @@ def run(spec, opts=None, model=None, call=None):
             if opts.get("resume_from") is not None:
                 fl = opts.get("restart_flags") or (False, False)
                 kw.update(initialize_state_info=bool(fl[0]), initialize_log_info=bool(fl[1]))
+                if fl[0] and not fl[1]:
+                    ex.log_start = len(ex.m.project.cost_list)  # a new life cycle is appended to the kept logs
+            elif opts.get("flags") is not None:
+                kw.update(initialize_state_info=bool(opts["flags"][0]), initialize_log_info=bool(opts["flags"][1]))
             if opts.get("backward"):
                 # the observed run is the inner run of backward_simulate (dependencies reversed while it runs)
                 ex.m.project.backward_simulate(considering_due_time_of_tail_tasks=bool(opts.get("due")), reverse_log_information=bool(opts.get("rev", True)), **kw)
